@@ -65,10 +65,17 @@ Reports(v, a) ==
          /\ ShapeOf(v) = a.shape
          /\ TotalSizeOf(v) = a.total
 
+\* an array built from the register right after the call has the shape of the dimensions the register really lists
+\* (arrshape <<-1>>: not built - too large, or the register lists a dimension unknown to the alphabet)
+KnownIds(a) == \A i \in DOMAIN a.ids : a.ids[i] \in TDim
+ArrayOK(a) == a.none \/ a.arrshape = <<-1>> \/ ~KnownIds(a) \/ a.arrshape = ShapeOf(a.ids)
+
 Clause(e) ==
     LET v == Result(e)
         want == IF v = Error THEN "error" ELSE "ok"
     IN  IF e.outcome # want THEN "outcome: logged " \o e.outcome \o ", the model says " \o want
+        ELSE IF \E r \in TRegs : ~ArrayOK(e.post[r])
+             THEN "an array built from register " \o (CHOOSE q \in TRegs : ~ArrayOK(e.post[q])) \o " does not have the shape of the dimensions it lists {C13,C14}"
         ELSE IF \E r \in TRegs : ~Reports(ExpectedRegs(e)[r], e.post[r])
              THEN LET r == CHOOSE q \in TRegs : ~Reports(ExpectedRegs(e)[q], e.post[q]) IN
                   "register " \o r \o (IF r = Target(e) /\ v # Error THEN " (result)" ELSE IF r = e.recv THEN " (receiver)" ELSE " (bystander)")
